@@ -48,8 +48,10 @@ func run(r *ev.Run) {
 	r.Assume("restart = fail-stop of the incarnation's source, destination and queue wrappers (inject.Freeze), then a new sync handler over the same durable stores and queue KV with fresh wrappers; goroutines of the old incarnation keep running but every lower-layer call they make fails without effect")
 	r.Assume("progress is driven by logical events only: client retries, one filler upload, and a bounded number (3 + planned fault occurrences) of IdleWait returns; IdleWait's 5 s loop interval is waited for, never judged; a 90 s watchdog on IdleWait only yields inconclusive")
 	r.Assume("bounded progress of the copy loop: while a blob is durably queued, absent from the destination, and the destination answers a stat, the loop must not be in a closed wait cycle = at 3 successive polls the handler has issued the same lower-layer calls (none open) and a goroutine dump shows its loop goroutine parked in a plain channel operation (or the Wait of runSync's local WaitGroup) inside runSync and every live goroutine that goroutine ever created parked in a plain channel operation with a frame of perkeep's packages server or blobserver on top, or in the hand-over select of one of the three enumerator functions, whose cases are the send on runSync's channel and runSync's interrupt channel (then 5 polls, spanning more than the loop's 5 s timer); runSync's channels are local, so nobody else can complete these operations; anything else that delays IdleWait is inconclusive")
-	r.Assume("start-up recovery (validateOnStart, fullSyncOnStart): blobs that are in the source when the handler starts, without a queue row, are expected at the destination too (the status page documents the validation as ensuring 'that the destination has everything the source does, or is at least enqueued to sync'); validation is waited for through the handler's status page (shards processed = total); blockingFullSyncOnStart and hourlyCompareBytes are not exercised")
-	r.Assume("family 'server': handlers built by serverinit.Load(high-level config)+InstallHandlers in a child process and driven through their HTTP handlers (PUT at the discovered blob root = cond -> replica|/bs/); 'nothing left to copy' is read from the status handler (blobsToCopy of every sync handler = 0) after all uploads were acknowledged; delivered = the index prefix stats the blob with its true size")
+	r.Assume("start-up recovery (validateOnStart, fullSyncOnStart): blobs that are in the source when the handler starts, without a queue row, are expected at the destination too (the status page documents the validation as ensuring 'that the destination has everything the source does, or is at least enqueued to sync'); validation is waited for through the handler's status page (shards processed = total); hourlyCompareBytes is not exercised; blobs that are in the source without a queue row are never subjected to copy failures (the statement covers received blobs)")
+	r.Assume("family 'full-sync-restart': every blob of the scenario was acknowledged and durably queued before the crash; the incarnation that runs fullSyncOnStart / blockingFullSyncOnStart gets a finite number of copy failures (the first per*m destination writes or source reads); delivery is owed for every one of them after the bounded progress")
+	r.Assume("family 'routed': uploads go through blobserver.Receive on a storage-replica [source, second memory store] or on a storage-cond {isSchema -> that replica, else -> source}; the source receives every blob either way, so every acknowledged blob is owed to the destination; an upload counts as through the replica when the second store holds the blob")
+	r.Assume("family 'server': handlers built by serverinit.Load(high-level config)+InstallHandlers in a child process and driven through their HTTP handlers (PUT at the discovered blob root = cond -> replica|/bs/); 'nothing left to copy' is read from the status handler (blobsToCopy of every sync handler = 0) after all uploads were acknowledged; delivered = the index prefix stats the blob with its true size; configurations '+backup' add, to the generated low-level configuration, a storage /backup/ and a second sync handler /bs/ -> /backup/ (the shape genconfig emits for a cloud replica): delivered there = /backup/ stats the blob with its true size, for schema blobs (which /bs/ receives as a backend of the /bs-and-index/ replica) and non-schema blobs alike")
 	r.Assume("schedule control by gates and a 300 ms settle (destination held until the copy workers are all inside it) only shapes the interleaving; it is never judged")
 	r.Assume("a queue row whose blob is at the destination but which is still present after the bounded progress (the handler logs and ignores a failed queue.Delete) is tolerated in the running incarnation, counted, and must be drained by one fault-free restart")
 	r.Assume("index destination: delivered = have:<ref> is \"<size>|indexed\" and meta:<ref> starts with \"<size>|\"; histories for the index family upload every dependency before its dependents, sequentially")
@@ -163,8 +165,36 @@ func run(r *ev.Run) {
 		if sc.Family == "startup-recovery" {
 			r.Note("startup_recovery", sc.Kind)
 		}
+		for _, ps := range uniq(o.PendingSizes) {
+			r.Note("boundary_size_pending_at_a_restart", ps)
+		}
+		if sc.Family == "full-sync-restart" && o.PendingAtLastStart > 0 && len(o.LastIncFaults) > 0 {
+			mode := "full-sync-on-start"
+			if sc.Incs[len(sc.Incs)-1].BlockFullSync {
+				mode = "blocking-full-sync-on-start"
+			}
+			if sc.Incs[len(sc.Incs)-1].Validate {
+				mode = "validate-on-start"
+			}
+			r.Note("full_sync_over_pending_rows", mode)
+			for _, f := range o.LastIncFaults {
+				r.Note("full_sync_over_pending_rows_fault", f)
+			}
+			r.Count("rows_pending_at_a_faulted_full_sync_start", o.PendingAtLastStart)
+		}
+		if sc.Via != "" {
+			r.Count("uploads_through_replica_to_source", o.ThroughReplica)
+			r.Count("uploads_from_cond_straight_to_source", o.DirectFromCond)
+			if o.ThroughReplica > 0 {
+				r.Note("upload_route", sc.Via+":replica->source")
+			}
+			if o.DirectFromCond > 0 {
+				r.Note("upload_route", sc.Via+":source")
+			}
+		}
 		delivered := len(o.Faults) > 0 || len(o.RestartAt) > 0 || len(o.Schedules) > 0 ||
-			sc.Family == "pool" || sc.Family == "size-boundary" || sc.Family == "startup-recovery" || sc.Family == "twin"
+			sc.Family == "pool" || sc.Family == "size-boundary" || sc.Family == "startup-recovery" || sc.Family == "twin" ||
+			(sc.Family == "routed" && o.ThroughReplica > 0)
 		for _, f := range uniq(o.Faults) {
 			r.Note("fault_kinds", f)
 			r.Note("fault_kinds_by_dest", f+"@"+sc.Dest)
@@ -217,6 +247,7 @@ func run(r *ev.Run) {
 		r.Count("server_blobs_uploaded_at_blob_root", wr.Uploaded)
 		r.Count("server_blobs_verified_at_index", wr.AtIndex)
 		r.Count("server_status_polls", wr.StatusPolls)
+		r.Count("server_blobs_verified_at_second_sync_destination", wr.AtBackup)
 		r.Eval(2 * wr.Uploaded)
 		if wr.Uploaded > 0 && wr.Schema > 0 && wr.NonSchema > 0 {
 			r.Note("family_judged", "server")
@@ -240,10 +271,14 @@ func run(r *ev.Run) {
 	r.Require("fault_kinds", kindNames()...)
 	r.Require("restart_at", "queue.Set", "dst.ReceiveBlob", "queue.Delete", "src.Fetch")
 	r.Require("startup", "refused-on-unreadable-queue")
-	r.Require("schedules", "reupload-during-dst.ReceiveBlob", "reupload-during-queue.Delete", "reupload-during-src.Fetch",
+	r.Require("schedules", "reupload-during-dst.ReceiveBlob", "reupload-during-queue.Delete", "reupload-during-src.Fetch", "reupload-during-queue.Set",
 		"destination-held-until-workers-busy", "destination-silent-until-crash")
 	r.Require("family_judged", "fault", "restart", "restart-outage", "double-restart", "multi", "designed", "race",
-		"pool", "size-boundary", "backlog", "file-queue", "startup-recovery", "server", "twin")
+		"pool", "size-boundary", "backlog", "file-queue", "startup-recovery", "server", "twin", "full-sync-restart", "routed")
+	r.Require("boundary_size_pending_at_a_restart", "0", "max")
+	r.Require("full_sync_over_pending_rows", "full-sync-on-start", "blocking-full-sync-on-start", "validate-on-start")
+	r.Require("full_sync_over_pending_rows_fault", "dst-receive-error", "src-fetch-error")
+	r.Require("upload_route", "replica:replica->source", "cond:replica->source", "cond:source", "replica+sync:replica->source")
 	r.Require("server_config", wiringConfigs(r.Thorough())...)
 	r.Require("copier_pool_size", "1", "2")
 	r.Require("blob_size", "0", "1", fmt.Sprint(maxBlobSize-1), fmt.Sprint(maxBlobSize))
